@@ -150,6 +150,9 @@ func initConverter(loader *pkgload.PackageLoader, rawConverter *RawConverter) (*
 			return nil, err
 		}
 
+		if named, ok := interfaceObj.Type().(*types.Named); ok && named.TypeParams().Len() > 0 {
+			return nil, fmt.Errorf("error parsing converter at\n    %s\n    %s\n\ngeneric interfaces are not supported as converter", rawConverter.Converter.Location, interfaceObj.Type())
+		}
 		c.typ = interfaceObj.Type()
 		c.Name = rawConverter.InterfaceName + "Impl"
 		return c, nil
